@@ -1,12 +1,21 @@
-(* Model of what generated templ code writes for a fragment of the template language, with the Go
-   expressions already evaluated (the environment is folded into the tree):
-     static text, { string expressions }, elements and void elements with constant / boolean / dynamic /
-     conditional-boolean / spread attributes, arbitrarily nested.
+(* Model of what generated templ code writes for the template language, with the Go expressions already
+   evaluated (the environment is folded into the tree as oracle fields: string values, conditions, iteration
+   bodies, the chosen switch case, the callee's body, the children block):
+     static text, { string expressions }, elements and void elements, HTML comments, doctype,
+     raw <style>/<script> elements with static content, script elements with {{ }} parts,
+     if/else, for, switch, component calls and { children... };
+     attributes: constant / boolean / dynamic / conditional-boolean / spread / style / if-else attribute lists.
    Mirrors /repo/generator/generator.go: writeElement (open tag, attributes, children, close tag; void
    elements: no children, no close tag), writeText, writeStringExpression (templ.EscapeString of the value),
    writeConstantAttribute / writeExpressionAttribute (name, then the escaped value between double quotes),
    writeBoolConstantAttribute, writeBoolExpressionAttribute, writeSpreadAttributes (templ.RenderAttributes),
-   writeExpressionAttributeValueStyle (the result of SanitizeStyleAttributeValues, not escaped again).
+   writeExpressionAttributeValueStyle (the result of SanitizeStyleAttributeValues, not escaped again),
+   writeConditionalAttribute, writeComment, writeDocType, writeRawElement, writeScriptElement / writeScriptContents
+   (static text as is; a Go part is the string returned by templruntime.ScriptContentInside/OutsideStringLiteral),
+   writeIfExpression / writeForExpression / writeSwitchExpression (the nodes of the branch taken, per iteration),
+   writeCallTemplateExpression / writeTemplElementExpression / writeChildrenExpression (the callee renders into
+   the same buffer).  Whitespace nodes and trailing-space rules are static text of the tree (the harness builds
+   the tree with them; property C02 is about those rules).
    Element and attribute names are written through html.EscapeString, as the generator does. *)
 From Coq.Strings Require Import Byte String.
 From Coq Require Import List NArith Bool.
@@ -19,15 +28,38 @@ Inductive attr :=
 | ADyn (k s : bytes)                         (* name={ expr }, expr evaluated to s (after URL / style / class typing) *)
 | ABoolExpr (k : bytes) (b : bool)           (* name?={ expr } *)
 | ASpread (m : list (bytes * aval))          (* { m... } *)
-| AStyle (vs : list sval).                   (* style={ vs... }: templruntime.SanitizeStyleAttributeValues, written as returned *)
+| AStyle (vs : list sval)                    (* style={ vs... }: templruntime.SanitizeStyleAttributeValues, written as returned *)
+| ACond (c : bool) (th el : list attr).      (* if c { th } else { el }  inside a start tag, nested arbitrarily *)
+
+(* one part of a script element's content *)
+Inductive spart :=
+| PStatic (v : bytes)                        (* JavaScript text of the template *)
+| PDyn (d : bytes).                          (* {{ expr }}: the bytes ScriptContentInside/OutsideStringLiteral returned *)
 
 Inductive tree :=
 | TText (v : bytes)                          (* static text *)
 | TStr (s : bytes)                           (* { expr } evaluated to s *)
 | TElem (n : bytes) (a : list attr) (ch : list tree)
-| TVoid (n : bytes) (a : list attr).
+| TVoid (n : bytes) (a : list attr)
+| TCmt (d : bytes)                           (* <!-- d --> *)
+| TDoc (d : bytes)                           (* <!DOCTYPE d> *)
+| TRaw (n : bytes) (a : list attr) (v : bytes)      (* raw element (style, script) with static content v *)
+| TScript (a : list attr) (ps : list spart)  (* script element with static and {{ }} parts *)
+| TIf (c : bool) (th el : list tree)         (* if / else if / else: c says which list is rendered *)
+| TFor (its : list (list tree))              (* for: the body as evaluated in each iteration *)
+| TSwitch (i : nat) (cs : list (list tree))  (* switch: case number i is taken (none when i is out of range) *)
+| TCall (body : list tree)                   (* @component(...) or <component/>: what the callee renders *)
+| TChildren (body : list tree).              (* { children... }: the block passed by the caller *)
 
-Definition render_attr_t (a : attr) : bytes :=
+(* the i-th list, through f; d when there is none *)
+Definition pick {A B : Type} (f : list A -> B) (d : B) : nat -> list (list A) -> B :=
+  fix pick (i : nat) (cs : list (list A)) {struct cs} : B :=
+    match cs with
+    | [] => d
+    | c :: r => match i with O => f c | S i' => pick i' r end
+    end.
+
+Fixpoint render_attr_t (a : attr) : bytes :=
   match a with
   | AConst k v => attr_kv k v
   | ADyn k s => attr_kv k s
@@ -35,7 +67,10 @@ Definition render_attr_t (a : attr) : bytes :=
   | ABoolExpr k b => if b then attr_bool k else []
   | ASpread m => render_attrs m
   | AStyle vs => [x20] ++ bs "style" ++ [x3d; x22] ++ style_attr vs ++ [x22]
+  | ACond c th el => flat_map render_attr_t (if c then th else el)
   end.
+
+Definition part_bytes (p : spart) : bytes := match p with PStatic v => v | PDyn d => d end.
 
 Fixpoint render (t : tree) : bytes :=
   match t with
@@ -43,4 +78,13 @@ Fixpoint render (t : tree) : bytes :=
   | TStr s => escape s
   | TElem n a ch => [x3c] ++ escape n ++ flat_map render_attr_t a ++ [x3e] ++ flat_map render ch ++ [x3c; x2f] ++ escape n ++ [x3e]
   | TVoid n a => [x3c] ++ escape n ++ flat_map render_attr_t a ++ [x3e]
+  | TCmt d => bs "<!--" ++ d ++ bs "-->"
+  | TDoc d => bs "<!doctype " ++ d ++ [x3e]
+  | TRaw n a v => [x3c] ++ escape n ++ flat_map render_attr_t a ++ [x3e] ++ v ++ [x3c; x2f] ++ escape n ++ [x3e]
+  | TScript a ps => bs "<script" ++ flat_map render_attr_t a ++ [x3e] ++ flat_map part_bytes ps ++ bs "</script>"
+  | TIf c th el => flat_map render (if c then th else el)
+  | TFor its => flat_map (flat_map render) its
+  | TSwitch i cs => pick (flat_map render) [] i cs
+  | TCall body => flat_map render body
+  | TChildren body => flat_map render body
   end.
